@@ -1,5 +1,7 @@
 (* C20, rotations over R: quaternion algebra, rotation of vectors, constructors. *)
 From Coq Require Import ZArith List Reals Lra Lia Psatz.
+From RV Require C20.NsatzR.   (* not imported: Nsatz's "0"/"1" notations would capture the literals of the statements *)
+Ltac nsatz := C20.NsatzR.rnsatz.
 From RV Require Import Common.Num Common.RealNum C20.Rotation.
 Import ListNotations.
 Open Scope R_scope.
@@ -83,7 +85,6 @@ Theorem rotate_linear : forall q a b s, Rrot (v_add RNum a (v_mul RNum b s)) q =
 Proof. intros. apply vec_eq; unf; ring. Qed.
 
 (* ---------------- normalisation *)
-From Coq Require Import Nsatz.
 
 Lemma inv_sqrt_sq : forall L, 0 < L -> (1 / sqrt L) * (1 / sqrt L) * L = 1 /\ 0 < 1 / sqrt L.
 Proof.
@@ -96,7 +97,15 @@ Qed.
 Lemma lsq_nonneg : forall v : vecR, 0 <= Rlsq v.
 Proof. intros [a b c]. unf. nra. Qed.
 Lemma lsq_zero : forall v : vecR, Rlsq v = 0 -> v = mkV 0 0 0.
-Proof. intros [a b c] H. unf. assert (a = 0) by nra. assert (b = 0) by nra. assert (c = 0) by nra. subst. reflexivity. Qed.
+Proof.
+  intros [a b c] H. unf.
+  pose proof (Rle_0_sqr a) as Pa. pose proof (Rle_0_sqr b) as Pb. pose proof (Rle_0_sqr c) as Pc. unfold Rsqr in *.
+  assert (Ha : a * a = 0) by lra. assert (Hb : b * b = 0) by lra. assert (Hc : c * c = 0) by lra.
+  assert (a = 0) by (destruct (Rmult_integral _ _ Ha); assumption).
+  assert (b = 0) by (destruct (Rmult_integral _ _ Hb); assumption).
+  assert (c = 0) by (destruct (Rmult_integral _ _ Hc); assumption).
+  subst. reflexivity.
+Qed.
 Lemma normalize_unit : forall v : vecR, 0 < Rlsq v -> Rlsq (v_normalize RNum v) = 1.
 Proof.
   intros [a b c] H. destruct (inv_sqrt_sq _ H) as [E _]. unfold v_normalize. set (s := ndiv RNum (none RNum) (nsqrt RNum (Rlsq (mkV a b c)))) in *.
@@ -108,8 +117,8 @@ Proof. intros v H. rewrite (lsq_zero v H). unf. ring. Qed.
 (* ---------------- constructors *)
 Theorem angle_axis_unit : forall c s axis, c * c + s * s = 1 -> 0 < Rlsq axis -> Rqlsq (angle_axis RNum c s axis) = 1.
 Proof.
-  intros c s axis H Ha. pose proof (normalize_unit axis Ha) as Hn. unfold angle_axis.
-  destruct (v_normalize RNum axis) as [a1 a2 a3]. unf. nsatz.
+  intros c s axis H Ha. pose proof (normalize_unit axis Ha) as Hn. unfold angle_axis. revert Hn.
+  destruct (v_normalize RNum axis) as [a1 a2 a3]. intro Hn. clear Ha axis. unf. nsatz.
 Qed.
 (* the rotation fixes its axis and turns a perpendicular vector by the full angle, counter-clockwise:
    cos(angle) = c^2 - s^2, sin(angle) = 2 s c for c = cos(angle/2), s = sin(angle/2) *)
@@ -118,8 +127,8 @@ Theorem angle_axis_rotates : forall c s axis p, c * c + s * s = 1 -> 0 < Rlsq ax
   Rrot a q = a /\
   (Rdot a p = 0 -> Rrot p q = v_add RNum (v_mul RNum p (c * c - s * s)) (v_mul RNum (Rcross a p) (2 * s * c))).
 Proof.
-  intros c s axis p H Ha. pose proof (normalize_unit axis Ha) as Hn. unfold angle_axis. cbv zeta.
-  destruct (v_normalize RNum axis) as [a1 a2 a3]. destruct p as [p1 p2 p3]. split.
+  intros c s axis p H Ha. pose proof (normalize_unit axis Ha) as Hn. unfold angle_axis. cbv zeta. revert Hn.
+  destruct (v_normalize RNum axis) as [a1 a2 a3]. intro Hn. clear Ha axis. destruct p as [p1 p2 p3]. split.
   - apply vec_eq; unf; nsatz.
   - intros Hp. apply vec_eq; unf; nsatz.
 Qed.
@@ -154,3 +163,191 @@ Lemma mul_comm_parallel : forall (u : vecR) a b c d,
   Rmul (mkQ (a * vx u) (a * vy u) (a * vz u) b) (mkQ (c * vx u) (c * vy u) (c * vz u) d) =
   Rmul (mkQ (c * vx u) (c * vy u) (c * vz u) d) (mkQ (a * vx u) (a * vy u) (a * vz u) b).
 Proof. intros. apply quat_eq; unf; ring. Qed.
+
+(* ---------------- init_from_to *)
+Definition isnormR (x : R) : bool := negb (Reqb x 0).
+
+Lemma lsq_add_unit : forall f t : vecR, Rlsq f = 1 -> Rlsq t = 1 -> Rlsq (v_add RNum f t) = 2 + 2 * Rdot f t.
+Proof. intros [f1 f2 f3] [t1 t2 t3] Hf Ht. unf. nsatz. Qed.
+
+Lemma reduced_form : forall f g : vecR, exists s,
+  from_to_reduced RNum f g =
+  mkQ (s * vx (Rcross f g)) (s * vy (Rcross f g)) (s * vz (Rcross f g)) (s * (Rlsq f + Rdot f g)).
+Proof.
+  intros [f1 f2 f3] [g1 g2 g3]. unfold from_to_reduced, v_normalize. cbn [vx vy vz].
+  set (s := ndiv RNum (none RNum) _). exists s. apply quat_eq; unf; ring.
+Qed.
+
+Lemma dot_half_pos : forall f t : vecR, Rlsq f = 1 -> Rlsq t = 1 -> 0 < Rlsq (v_add RNum f t) ->
+  let h := v_normalize RNum (v_add RNum f t) in 0 < Rdot f h /\ 0 < Rdot h t.
+Proof.
+  intros f t Hf Ht HL. pose proof (lsq_add_unit f t Hf Ht) as EL. destruct (inv_sqrt_sq _ HL) as [_ Hs].
+  cbv zeta. unfold v_normalize. set (s := ndiv RNum (none RNum) _). change (0 < s) in Hs.
+  destruct f as [f1 f2 f3]. destruct t as [t1 t2 t3]. clearbody s. revert Hf Ht HL EL. unf. intros Hf Ht HL EL.
+  assert (P : 0 < 1 + (f1 * t1 + f2 * t2 + f3 * t3)) by lra. clear HL EL. revert Hs P. 
+  assert (E1 : s * (f1 + t1) * f1 + s * (f2 + t2) * f2 + s * (f3 + t3) * f3 = s * (1 + (f1 * t1 + f2 * t2 + f3 * t3))) by nsatz.
+  assert (E2 : s * (f1 + t1) * t1 + s * (f2 + t2) * t2 + s * (f3 + t3) * t3 = s * (1 + (f1 * t1 + f2 * t2 + f3 * t3))) by nsatz.
+  intros Hs P.
+  split.
+  - replace (f1 * (s * (f1 + t1)) + f2 * (s * (f2 + t2)) + f3 * (s * (f3 + t3))) with (s * (1 + (f1 * t1 + f2 * t2 + f3 * t3))) by (rewrite <- E1; ring).
+    apply Rmult_lt_0_compat; assumption.
+  - rewrite E2. apply Rmult_lt_0_compat; assumption.
+Qed.
+
+Lemma two_stage_commute : forall (f t : vecR) s0,
+  let h := v_mul RNum (v_add RNum f t) s0 in
+  Rmul (from_to_reduced RNum f h) (from_to_reduced RNum h t) = Rmul (from_to_reduced RNum h t) (from_to_reduced RNum f h).
+Proof.
+  intros f t s0 h. destruct (reduced_form f h) as [s1 E1]. destruct (reduced_form h t) as [s2 E2]. rewrite E1, E2. subst h.
+  destruct f as [f1 f2 f3]. destruct t as [t1 t2 t3]. apply quat_eq; unf; ring.
+Qed.
+
+Lemma two_stage_spec : forall f t : vecR, Rlsq f = 1 -> Rlsq t = 1 -> 0 < Rlsq (v_add RNum f t) ->
+  let h := v_normalize RNum (v_add RNum f t) in
+  let q := Rmul (from_to_reduced RNum f h) (from_to_reduced RNum h t) in
+  Rqlsq q = 1 /\ Rrot f q = t.
+Proof.
+  intros f t Hf Ht HL h q. pose proof (normalize_unit _ HL) as Hh. fold h in Hh.
+  destruct (dot_half_pos f t Hf Ht HL) as [P1 P2]. fold h in P1, P2.
+  assert (L1 : 0 < Rlsq (v_add RNum f h)) by (rewrite (lsq_add_unit f h Hf Hh); lra).
+  assert (L2 : 0 < Rlsq (v_add RNum h t)) by (rewrite (lsq_add_unit h t Hh Ht); lra).
+  destruct (reduced_spec f h Hf Hh L1) as [U1 R1]. destruct (reduced_spec h t Hh Ht L2) as [U2 R2].
+  subst q. split.
+  - rewrite lsq_mul, U1, U2. ring.
+  - unfold h at 1 2. unfold v_normalize. rewrite two_stage_commute. fold (v_normalize RNum (v_add RNum f t)). fold h.
+    rewrite rotate_mul by assumption. rewrite R1. exact R2.
+Qed.
+
+Lemma axis_quat_spec : forall f e : vecR, Rlsq f = 1 -> 0 < Rlsq (Rcross f e) ->
+  let q := axis_quat RNum f e in Rqlsq q = 1 /\ Rrot f q = v_mul RNum f (-1) /\ qr q = 0.
+Proof.
+  intros f e Hf HL. destruct (inv_sqrt_sq _ HL) as [E _]. cbv zeta. unfold axis_quat, v_normalize.
+  set (s := ndiv RNum (none RNum) _) in *. change (s * s * Rlsq (Rcross f e) = 1) in E.
+  destruct f as [f1 f2 f3]. destruct e as [e1 e2 e3]. clear HL. revert Hf E. unf. intros Hf E.
+  split; [nsatz | split; [apply vec_eq; cbn [vx vy vz]; nsatz | reflexivity]].
+Qed.
+
+Lemma Rleb_true : forall a b, Rleb a b = true -> a <= b.
+Proof. intros a b. unfold Rleb. destruct (Rle_dec a b); [auto | discriminate]. Qed.
+Lemma Rleb_false : forall a b, Rleb a b = false -> b < a.
+Proof. intros a b. unfold Rleb. destruct (Rle_dec a b); [discriminate | intros; lra]. Qed.
+Lemma Rltb_true : forall a b, Rltb a b = true -> a < b.
+Proof. intros a b. unfold Rltb. destruct (Rlt_dec a b); [auto | discriminate]. Qed.
+Lemma Rltb_false : forall a b, Rltb a b = false -> b <= a.
+Proof. intros a b. unfold Rltb. destruct (Rlt_dec a b); [discriminate | intros; lra]. Qed.
+Lemma abs_le_sq : forall a b, Rabs a <= Rabs b -> a * a <= b * b.
+Proof. intros a b H. apply Rsqr_le_abs_1 in H. exact H. Qed.
+Lemma abs_lt_sq : forall a b, Rabs a < Rabs b -> a * a < b * b.
+Proof. intros a b H. apply Rsqr_lt_abs_1 in H. exact H. Qed.
+
+(* the antiparallel branch: a half turn (real part 0) about a unit axis orthogonal to from *)
+Lemma antiparallel_spec : forall f : vecR, Rlsq f = 1 ->
+  let ax := nabs RNum (vx f) in let ay := nabs RNum (vy f) in let az := nabs RNum (vz f) in
+  let q := if andb (nleb RNum ax ay) (nleb RNum ax az) then axis_quat RNum f (mkV 1 0 0)
+           else if nleb RNum ay az then axis_quat RNum f (mkV 0 1 0) else axis_quat RNum f (mkV 0 0 1) in
+  Rqlsq q = 1 /\ Rrot f q = v_mul RNum f (-1) /\ qr q = 0.
+Proof.
+  intros [f1 f2 f3] Hf. cbv zeta. cbn [vx vy vz nabs nleb RNum].
+  assert (Hf' : f1 * f1 + f2 * f2 + f3 * f3 = 1) by (revert Hf; unf; intro; lra).
+  destruct (Rleb (Rabs f1) (Rabs f2)) eqn:A; [destruct (Rleb (Rabs f1) (Rabs f3)) eqn:B|]; cbn [andb].
+  - apply axis_quat_spec; [exact Hf|]. apply Rleb_true, abs_le_sq in A. apply Rleb_true, abs_le_sq in B. unf. nra.
+  - destruct (Rleb (Rabs f2) (Rabs f3)) eqn:C.
+    + apply axis_quat_spec; [exact Hf|]. apply Rleb_true, abs_le_sq in C. unf. nra.
+    + apply axis_quat_spec; [exact Hf|]. apply Rleb_false, abs_lt_sq in C. unf. nra.
+  - destruct (Rleb (Rabs f2) (Rabs f3)) eqn:C.
+    + apply axis_quat_spec; [exact Hf|]. apply Rleb_true, abs_le_sq in C. unf. nra.
+    + apply axis_quat_spec; [exact Hf|]. apply Rleb_false, abs_lt_sq in C. unf. nra.
+Qed.
+
+Theorem from_to_spec : forall thr (a b : vecR), 0 <= thr -> 0 < Rlsq a -> 0 < Rlsq b ->
+  let f := v_normalize RNum a in let t := v_normalize RNum b in
+  let q := from_to RNum isnormR thr a b in
+  Rqlsq q = 1 /\
+  (0 <= Rdot f t \/ thr < Rlsq (v_add RNum f t) -> Rrot f q = t) /\
+  (Rdot f t < 0 -> Rlsq (v_add RNum f t) <= thr -> Rrot f q = v_mul RNum f (-1) /\ qr q = 0).
+Proof.
+  intros thr a b Hthr Ha Hb f t q.
+  pose proof (normalize_unit a Ha) as Hf. pose proof (normalize_unit b Hb) as Ht. fold f in Hf. fold t in Ht.
+  pose proof (lsq_add_unit f t Hf Ht) as EL.
+  subst q. unfold from_to. fold f. fold t. cbv zeta.
+  change (mkV (nadd RNum (vx f) (vx t)) (nadd RNum (vy f) (vy t)) (nadd RNum (vz f) (vz t))) with (v_add RNum f t).
+  cbn [nleb nltb nzero RNum].
+  destruct (Rleb 0 (Rdot f t)) eqn:D.
+  - apply Rleb_true in D. assert (HL : 0 < Rlsq (v_add RNum f t)) by lra.
+    destruct (reduced_spec f t Hf Ht HL) as [U Rm]. split; [exact U|]. split; [intros _; exact Rm | intros; lra].
+  - apply Rleb_false in D. destruct (Rltb thr (Rlsq (v_add RNum f t))) eqn:C.
+    + apply Rltb_true in C. assert (HL : 0 < Rlsq (v_add RNum f t)) by lra.
+      assert (N1 : isnormR (Rlsq (v_normalize RNum (v_add RNum f t))) = true).
+      { rewrite (normalize_unit _ HL). unfold isnormR, Reqb. destruct (Req_EM_T 1 0); [lra | reflexivity]. }
+      rewrite N1. cbn [negb orb]. destruct (two_stage_spec f t Hf Ht HL) as [U Rm].
+      split; [exact U|]. split; [intros _; exact Rm | intros; lra].
+    + apply Rltb_false in C. cbn [negb orb]. destruct (antiparallel_spec f Hf) as (U & Rm & Z).
+      split; [exact U|]. split; [intros [H|H]; lra | intros _ _; split; [exact Rm | exact Z]].
+Qed.
+
+(* exactly antiparallel vectors (any lengths): from_hat is taken to to_hat = -from_hat by a half turn *)
+Corollary from_to_antiparallel : forall thr (a : vecR) k, 0 <= thr -> 0 < Rlsq a -> 0 < k ->
+  let b := v_mul RNum a (- k) in let q := from_to RNum isnormR thr a b in
+  Rqlsq q = 1 /\ Rrot (v_normalize RNum a) q = v_normalize RNum b /\ qr q = 0.
+Proof.
+  intros thr a k Hthr Ha Hk b q.
+  assert (Hb : 0 < Rlsq b).
+  { subst b. destruct a as [a1 a2 a3]. revert Ha. unf. intro Ha.
+    replace (- k * a1 * (- k * a1) + - k * a2 * (- k * a2) + - k * a3 * (- k * a3)) with (k * k * (a1 * a1 + a2 * a2 + a3 * a3)) by ring.
+    apply Rmult_lt_0_compat; [apply Rmult_lt_0_compat; exact Hk | exact Ha]. }
+  assert (Eb : v_normalize RNum b = v_mul RNum (v_normalize RNum a) (-1)).
+  { subst b. unfold v_normalize. destruct a as [a1 a2 a3].
+    assert (EL : Rlsq (v_mul RNum (mkV a1 a2 a3) (- k)) = (k * k) * Rlsq (mkV a1 a2 a3)) by (unf; ring).
+    rewrite EL. change (nsqrt RNum) with sqrt. rewrite sqrt_mult by (try nra; apply Rlt_le; exact Ha).
+    rewrite sqrt_square by lra. assert (0 < sqrt (Rlsq (mkV a1 a2 a3))) by (apply sqrt_lt_R0; exact Ha).
+    apply vec_eq; unf; field; lra. }
+  destruct (from_to_spec thr a b Hthr Ha Hb) as (U & _ & A). fold q in U, A.
+  rewrite Eb in A |- *. set (f := v_normalize RNum a) in *.
+  pose proof (normalize_unit a Ha) as Hf. fold f in Hf.
+  assert (Z : Rlsq (v_add RNum f (v_mul RNum f (-1))) = 0) by (destruct f as [f1 f2 f3]; unf; ring).
+  assert (Dn : Rdot f (v_mul RNum f (-1)) < 0).
+  { destruct f as [f1 f2 f3]. revert Hf. unf. intro Hf. nra. }
+  destruct (A Dn) as [R1 R2]; [rewrite Z; exact Hthr|]. auto.
+Qed.
+
+(* ---------------- a rotated simulation: mutual distances, energy, angular momentum *)
+Definition v_sub (a b : vecR) : vecR := v_add RNum a (v_mul RNum b (-1)).
+Theorem rotate_distance : forall q a b, Rqlsq q = 1 -> Rlsq (v_sub (Rrot a q) (Rrot b q)) = Rlsq (v_sub a b).
+Proof. intros q a b H. unfold v_sub. rewrite <- rotate_linear. apply rotate_norm. exact H. Qed.
+
+Definition body : Type := (R * (vecR * vecR))%type.      (* mass, (position, velocity) *)
+Definition rotB (q : quatR) (b : body) : body := (fst b, rotate_pv RNum q (snd b)).
+Definition bpos (b : body) := fst (snd b).
+Definition bvel (b : body) := snd (snd b).
+Fixpoint kin (ps : list body) : R := match ps with [] => 0 | b :: r => fst b / 2 * Rlsq (bvel b) + kin r end.
+Fixpoint pot_from (b : body) (ps : list body) : R :=
+  match ps with [] => 0 | c :: r => fst b * fst c / sqrt (Rlsq (v_sub (bpos b) (bpos c))) + pot_from b r end.
+Fixpoint pot (ps : list body) : R := match ps with [] => 0 | b :: r => pot_from b r + pot r end.
+Definition energy (G : R) (ps : list body) : R := kin ps - G * pot ps.
+Fixpoint angmom (ps : list body) : vecR :=
+  match ps with [] => mkV 0 0 0 | b :: r => v_add RNum (v_mul RNum (Rcross (bpos b) (bvel b)) (fst b)) (angmom r) end.
+
+Lemma rotB_map_is_sim_rotate : forall q ps, map snd (map (rotB q) ps) = sim_rotate RNum q (map snd ps).
+Proof. intros. unfold sim_rotate. rewrite !map_map. reflexivity. Qed.
+
+Theorem rotate_energy : forall G q ps, Rqlsq q = 1 -> energy G (map (rotB q) ps) = energy G ps.
+Proof.
+  intros G q ps H. unfold energy. f_equal; [|f_equal].
+  - induction ps as [|b r IH]; [reflexivity|]. cbn [map kin]. rewrite IH. unfold rotB, bvel, rotate_pv. cbn [fst snd].
+    rewrite rotate_norm by exact H. reflexivity.
+  - induction ps as [|b r IH]; [reflexivity|]. cbn [map pot]. rewrite IH. f_equal.
+    clear IH. induction r as [|c r IH]; [reflexivity|]. cbn [map pot_from]. rewrite IH.
+    unfold rotB, bpos, rotate_pv. cbn [fst snd]. rewrite rotate_distance by exact H. reflexivity.
+Qed.
+
+Theorem rotate_angmom : forall q ps, Rqlsq q = 1 ->
+  angmom (map (rotB q) ps) = Rrot (angmom ps) q /\ Rlsq (angmom (map (rotB q) ps)) = Rlsq (angmom ps).
+Proof.
+  intros q ps H. assert (E : angmom (map (rotB q) ps) = Rrot (angmom ps) q).
+  { induction ps as [|b r IH]; [cbn; apply vec_eq; unf; ring|]. cbn [map angmom]. rewrite IH.
+    unfold rotB, bpos, bvel, rotate_pv. cbn [fst snd]. rewrite <- rotate_cross by exact H.
+    assert (A : forall a c m, Rrot (v_add RNum (v_mul RNum a m) c) q = v_add RNum (v_mul RNum (Rrot a q) m) (Rrot c q))
+      by (intros; apply vec_eq; unf; ring).
+    rewrite A. reflexivity. }
+  split; [exact E|]. rewrite E. apply rotate_norm. exact H.
+Qed.
